@@ -22,6 +22,10 @@ MUTATIONS = [
     # the meta field among the root fields: one more response key at ITS place in document order
     ("mutation { a(n: 1) __typename b { name __typename } t: __typename d }", {}),
     ("mutation { b { name } kind: __typename }", {}),
+    # a response key written more than once (directly, through a spread, through an inline fragment) keeps the place of its FIRST occurrence: that is its turn
+    ("mutation { first: a(n: 1) second: b { name } ...F third: d } fragment F on Mutation { first: a(n: 1) }", {}),
+    ("mutation { a(n: 1) c ... on Mutation { a(n: 1) d } c }", {}),
+    ("mutation { x: b { name } d ... { x: b { age } } }", {}),
 ]
 DEFERRED = [
     [("Mutation", "a"), ("Mutation", "b"), ("Mutation", "c"), ("Mutation", "d")],
